@@ -820,6 +820,50 @@ func ruleL5(c *Ctx) *RuleResult {
 		r.undecided("(*muxerStream).hasContent not found")
 		return r
 	}
+	// gate functions: hasContent itself, and every boolean helper that returns true only after a gate function
+	// returned true (`waitForContent`: loop { if closed return false; if hasContent() return true; Wait }).
+	gateFns := map[*ssa.Function]bool{hasContent: true}
+	isGateCall := func(v ssa.Value) bool {
+		call, ok := v.(*ssa.Call)
+		return ok && gateFns[call.Call.StaticCallee()]
+	}
+	for changed := true; changed; {
+		changed = false
+		for fn := range rset {
+			if gateFns[fn] || !InLib(fn) || fn.Blocks == nil || fn.Signature.Results().Len() != 1 {
+				continue
+			}
+			if b, ok := fn.Signature.Results().At(0).Type().Underlying().(*types.Basic); !ok || b.Kind() != types.Bool {
+				continue
+			}
+			conds := ifsOn(fn, isGateCall)
+			if len(conds) == 0 {
+				continue
+			}
+			okAll, nTrue := true, 0
+			for _, b := range fn.Blocks {
+				ret, ok := b.Instrs[len(b.Instrs)-1].(*ssa.Return)
+				if !ok {
+					continue
+				}
+				rv := retVal(ret, 0)
+				if bv, isB := constBool(rv); isB {
+					if bv {
+						nTrue++
+						if !onlyIf(fn, ret, conds, true) {
+							okAll = false
+						}
+					}
+					continue
+				}
+				okAll = false // a computed result: not a pure gate
+			}
+			if okAll && nTrue > 0 {
+				gateFns[fn] = true
+				changed = true
+			}
+		}
+	}
 	// gate: a function is gated if every call site (in request code) is control dependent on
 	// hasContent() == true, or lies in a gated function.
 	gated := map[*ssa.Function]int{} // 0 unknown, 1 gated, 2 not, 3 in progress
@@ -841,10 +885,7 @@ func ruleL5(c *Ctx) *RuleResult {
 			}
 			n++
 			caller := e.Caller.Func
-			conds := ifsOn(caller, func(v ssa.Value) bool {
-				call, ok := v.(*ssa.Call)
-				return ok && call.Call.StaticCallee() == hasContent
-			})
+			conds := ifsOn(caller, isGateCall)
 			if len(conds) > 0 && onlyIf(caller, e.Site, conds, true) {
 				continue
 			}
@@ -884,10 +925,7 @@ func ruleL5(c *Ctx) *RuleResult {
 				r.fail(key, c.Pos(posOf(a.instr)), FuncName(fn), "request code never writes an open slot", "store to "+c.fieldName(a.field))
 				continue
 			}
-			conds := ifsOn(fn, func(v ssa.Value) bool {
-				call, ok := v.(*ssa.Call)
-				return ok && call.Call.StaticCallee() == hasContent
-			})
+			conds := ifsOn(fn, isGateCall)
 			if len(conds) > 0 && onlyIf(fn, a.instr, conds, true) {
 				r.ok(key, c.Pos(posOf(a.instr)), FuncName(fn), "request code reads the open-segment slot only after hasContent() returned true in the same critical section", "control dependent on hasContent() in this function")
 				continue
